@@ -450,7 +450,7 @@ struct RoleDef {
     res: Vec<(String, Vec<String>)>,
 }
 
-#[derive(Clone, Debug, PartialEq)]
+#[derive(Clone, Debug, PartialEq, Default)]
 struct UserDef {
     /// the key in `[auth_users]`
     name: String,
@@ -460,6 +460,33 @@ struct UserDef {
     /// the user name that went into the weak salt when the hash was made
     hname: String,
     salt: u64,
+    /// the strong salt that went into the stored hash, if it is not the entry's own (`salt`)
+    hsalt: Option<u64>,
+    /// what the configuration holds as `password_hash`: `None` = the well-formed hash; otherwise that
+    /// hash mangled into a string that is not the text of any hash (see `stored_hash`)
+    stored: Option<String>,
+}
+
+/// The `password_hash` string of the configuration file for a user definition.
+fn stored_hash(u: &UserDef) -> String {
+    let h = hash_password(&u.hname, &u.hpw, &salt_bytes(u.hsalt.unwrap_or(u.salt)));
+    match u.stored.as_deref() {
+        None | Some("wf") => h,
+        // a locked account, the /etc/shadow way
+        Some("bang") => "!".into(),
+        Some("empty") => String::new(),
+        // copy and paste accidents
+        Some("trunc") => h[..h.len() - 1].to_string(),
+        Some("plus1") => format!("{h}0"),
+        // krill compares strings: the upper-case hex of the right hash is not the hash
+        Some("upper") => {
+            let up = h.to_uppercase();
+            if up == h { format!("{h}0") } else { up }
+        }
+        // 64 characters, none of them a hex digit
+        Some("nonhex64") => h.bytes().map(|c| if c.is_ascii_digit() { (b'g' + (c - b'0')) as char } else { (b'q' + (c - b'a')) as char }).collect(),
+        Some(other) => panic!("stored form {other}"),
+    }
 }
 
 #[derive(Clone, Debug, Default)]
@@ -495,10 +522,14 @@ impl CaseCfg {
             out.push(format!("role {} none={} any={} res={}", r.name, perms_str(&r.none, ","), perms_str(&r.any, ","), res));
         }
         for u in &self.users {
-            out.push(format!(
-                "user {} role={} hpw={} hname={} salt={}",
-                hexs(&u.name), u.role, hexs(&u.hpw), hexs(&u.hname), u.salt
-            ));
+            let mut l = format!("user {} role={} hpw={} hname={} salt={}", hexs(&u.name), u.role, hexs(&u.hpw), hexs(&u.hname), u.salt);
+            if let Some(hs) = u.hsalt {
+                l.push_str(&format!(" hsalt={hs}"));
+            }
+            if let Some(st) = &u.stored {
+                l.push_str(&format!(" stored={st}"));
+            }
+            out.push(l);
         }
         for (u, r) in &self.unix {
             out.push(format!("unix {u} {r}"));
@@ -545,6 +576,8 @@ impl CaseCfg {
                     hpw: unhex(kv(&w, "hpw").unwrap()),
                     hname: unhex(kv(&w, "hname").unwrap()),
                     salt: kv(&w, "salt").unwrap().parse().unwrap(),
+                    hsalt: kv(&w, "hsalt").and_then(|x| x.parse().ok()),
+                    stored: kv(&w, "stored").map(|x| x.to_string()),
                 });
                 true
             }
@@ -599,7 +632,7 @@ impl Instance {
                 users.insert(
                     u.name.clone(),
                     serde_json::json!({
-                        "password_hash": hash_password(&u.hname, &u.hpw, &salt_bytes(u.salt)),
+                        "password_hash": stored_hash(u),
                         "salt": hex::encode(salt_bytes(u.salt)),
                         "role": u.role,
                     }),
@@ -911,6 +944,89 @@ fn mutate(tok: &str, how: &str) -> Option<Vec<u8>> {
     Some(out)
 }
 
+/// A member of the neighbourhood of the credential `tok` (`KM.Http.NearMiss`; the Lean driver applies the
+/// same rules): what follows `Bearer ` in the header. `None`: the variant does not apply to this text.
+fn near_variant(tok: &str, how: &str) -> Option<Vec<u8>> {
+    let b = tok.as_bytes();
+    let len = b.len();
+    let other = |c: u8| if c == b'x' { b'y' } else { b'x' };
+    let parts: Vec<&str> = how.split(':').collect();
+    let out: Vec<u8> = match (parts[0], parts.get(1).copied()) {
+        ("pre", Some(k)) => {
+            let k = match k {
+                "h" => len / 2,
+                "m1" => len.checked_sub(1)?,
+                "m2" => len.checked_sub(2)?,
+                n => n.parse().ok()?,
+            };
+            if k == 0 || k >= len {
+                return None;
+            }
+            b[..k].to_vec()
+        }
+        ("ext", Some("c")) => format!("{tok}x").into_bytes(),
+        ("ext", Some("sp")) => format!("{tok} and then some").into_bytes(),
+        ("ext", Some("ws")) => format!("{tok}  ").into_bytes(),
+        ("chg", Some(p)) => {
+            if len == 0 {
+                return None;
+            }
+            let i = match p {
+                "0" => 0,
+                "mid" => len / 2,
+                "last" => len - 1,
+                _ => return None,
+            };
+            let mut v = b.to_vec();
+            v[i] = other(v[i]);
+            v
+        }
+        ("case", None) => {
+            let sw: String = tok
+                .chars()
+                .map(|c| if c.is_ascii_lowercase() { c.to_ascii_uppercase() } else if c.is_ascii_uppercase() { c.to_ascii_lowercase() } else { c })
+                .collect();
+            if sw == tok {
+                return None;
+            }
+            sw.into_bytes()
+        }
+        ("ws", Some("lead")) => format!("  {tok}").into_bytes(),
+        ("ws", Some("trail")) => format!("{tok}  ").into_bytes(),
+        ("ws", Some("both")) => format!(" {tok} ").into_bytes(),
+        ("ws", Some("tab")) => format!("\t{tok}\t").into_bytes(),
+        ("empty", None) => Vec::new(),
+        _ => return None,
+    };
+    if out.iter().any(|c| (*c < 0x20 && *c != b'\t') || *c >= 0x7f) {
+        return None;
+    }
+    Some(out)
+}
+
+/// Does the variant leave the credential what it is (only white space added)?
+fn near_same(how: &str) -> bool {
+    how.starts_with("ws:") || how == "ext:ws"
+}
+
+/// The neighbourhood of a credential of `len` characters (`None`: length not known when the plan is
+/// made – a session token, ~170 characters): every proper non-empty prefix of a short one, a sample of
+/// lengths for a long one; one more character; more text; one character changed in front, in the
+/// middle, at the end; the other letter case; white space around it; nothing.
+fn near_variants(len: Option<usize>) -> Vec<String> {
+    let mut v: Vec<String> = match len {
+        Some(n) if n <= 24 => (1..n).map(|k| format!("pre:{k}")).collect(),
+        _ => ["pre:1", "pre:2", "pre:h", "pre:m2", "pre:m1"].iter().map(|s| s.to_string()).collect(),
+    };
+    for s in ["ext:c", "ext:sp", "ext:ws", "chg:0", "chg:mid", "chg:last", "case", "ws:lead", "ws:trail", "ws:both", "ws:tab", "empty"] {
+        v.push(s.to_string());
+    }
+    v
+}
+
+/// One near miss per class for the runs over every row of the table.
+const NEAR_CLASSES: [&str; 3] = ["pre:m1", "ext:c", "chg:last"];
+
 /// A non-canonical base64 text for the same bytes (unused trailing bits set), if one exists.
 fn non_canonical(tok: &str) -> Option<String> {
     const ABC: &[u8] = b"ABCDEFGHIJKLMNOPQRSTUVWXYZabcdefghijklmnopqrstuvwxyz0123456789+/";
@@ -1028,6 +1144,13 @@ impl<'a> Runner<'a> {
         if desc == "none" {
             return Ok(None);
         }
+        if let Some(r) = desc.strip_prefix("near:") {
+            let (base, how) = r.split_once(':').ok_or("near")?;
+            let tok = if base == "adm" { self.cfg.admin.clone() } else { self.tokens.get(base).ok_or("skip".to_string())?.clone() };
+            let mut v = b"Bearer ".to_vec();
+            v.extend(near_variant(&tok, how).ok_or("skip".to_string())?);
+            return Ok(Some(v));
+        }
         if let Some(w) = desc.strip_prefix("bearer:") {
             let mut v = b"Bearer ".to_vec();
             v.extend(wire(self, w)?);
@@ -1074,7 +1197,11 @@ impl<'a> Runner<'a> {
     }
 
     fn who_for(&self, auth: &str, unix: bool, peer: &str) -> Who {
-        let wire = auth.strip_prefix("bearer:").or_else(|| auth.strip_prefix("bearerpad:"));
+        // a near miss that only adds white space is the credential itself
+        let same_as: Option<String> = auth.strip_prefix("near:").and_then(|r| r.split_once(':')).and_then(|(base, how)| {
+            if near_same(how) { Some(if base == "adm" { format!("txt:{}", hexs(&self.cfg.admin)) } else { base.to_string() }) } else { None }
+        });
+        let wire = auth.strip_prefix("bearer:").or_else(|| auth.strip_prefix("bearerpad:")).or(same_as.as_deref());
         if let Some(w) = wire {
             if w == format!("txt:{}", hexs(&self.cfg.admin)) {
                 return Who::Admin;
@@ -1378,7 +1505,7 @@ fn random_role(rng: &mut Rng, name: &str, perms: &[String]) -> RoleDef {
 
 fn user_for(role: &str, salt: u64) -> UserDef {
     let name = format!("u-{role}");
-    UserDef { name: name.clone(), role: role.into(), hpw: format!("pw-{role}"), hname: name, salt }
+    UserDef { name: name.clone(), role: role.into(), hpw: format!("pw-{role}"), hname: name, salt, ..Default::default() }
 }
 
 fn login_op(rows: &[Row], user: &UserDef, tok: &str, tr: &str) -> String {
@@ -1402,6 +1529,74 @@ fn all_rows_ops(rows: &[Row], tr: &str, auth: &str, cas: &[&str], skip_auth_rows
                 row.method,
                 if segs.is_empty() { "-".to_string() } else { segs.join("/") }
             ));
+        }
+    }
+    ops
+}
+
+/// One row under one credential.
+fn row_op(row: &Row, ca: &str, tr: &str, auth: &str) -> String {
+    let segs = instantiate(row, ca, false);
+    format!("req {} {} segs={} tr={tr} auth={auth}", row.idx, row.method, if segs.is_empty() { "-".to_string() } else { segs.join("/") })
+}
+
+/// A small representative set of gated rows: for every top-level family of the versioned API
+/// (`/api/v1/authorized`, `bulk`, `cas`, `pubd`, `ta`) the first row that reads and the first POST and
+/// DELETE rows that change state, plus the per-CA probe rows.
+fn near_rows(rows: &[Row]) -> Vec<&Row> {
+    let mut out: Vec<&Row> = Vec::new();
+    let mut families: Vec<String> = Vec::new();
+    let family = |r: &Row| -> Option<String> {
+        match (r.segs.first(), r.segs.get(1), r.segs.get(2)) {
+            (Some(Seg::Lit(a)), Some(Seg::Lit(b)), Some(Seg::Lit(c))) if a == "api" && b == "v1" => Some(c.clone()),
+            _ => None,
+        }
+    };
+    for r in rows {
+        if let Some(f) = family(r) {
+            if !r.gates.is_empty() && !families.contains(&f) {
+                families.push(f);
+            }
+        }
+    }
+    for f in &families {
+        let of_family = |r: &&Row| family(r).as_deref() == Some(f.as_str()) && !r.gates.is_empty();
+        if let Some(r) = rows.iter().filter(of_family).find(|r| r.method == "GET" && ["permitted", "static", "unchecked"].contains(&r.end.as_str())) {
+            out.push(r);
+        }
+        for m in ["POST", "DELETE"] {
+            if let Some(r) = rows.iter().filter(of_family).find(|r| r.method == m && r.end == "permitted") {
+                out.push(r);
+            }
+        }
+    }
+    for (pat, m) in [("/api/v1/cas/{handle}", "GET"), ("/api/v1/cas/{handle}/id", "POST"), ("/api/v1/cas/{handle}/routes", "POST"), ("/api/v1/bulk/cas/publish", "POST")] {
+        if let Some(r) = rows.iter().find(|r| r.pattern == pat && r.method == m) {
+            if !out.iter().any(|x| x.idx == r.idx) {
+                out.push(r);
+            }
+        }
+    }
+    out
+}
+
+/// The neighbourhood of a credential (`base` = `adm` or a token name) on the sample rows over the given
+/// transports, and one near miss per class (all of them: thorough) on every row of the table.
+fn near_ops(rows: &[Row], base: &str, len: Option<usize>, trs: &[&str], all_rows_tr: Option<&str>, thorough: bool) -> Vec<String> {
+    let mut ops = Vec::new();
+    let sample = near_rows(rows);
+    let variants = near_variants(len);
+    for tr in trs {
+        for v in &variants {
+            for r in &sample {
+                ops.push(row_op(r, "ca1", tr, &format!("near:{base}:{v}")));
+            }
+        }
+    }
+    if let Some(tr) = all_rows_tr {
+        let every: Vec<String> = if thorough { variants.clone() } else { NEAR_CLASSES.iter().map(|s| s.to_string()).collect() };
+        for v in &every {
+            ops.extend(all_rows_ops(rows, tr, &format!("near:{base}:{v}"), &["ca1"], false, false));
         }
     }
     ops
@@ -1472,20 +1667,46 @@ fn gen_plans(seed: u64, tier: &str, rows: &[Row], peer: &str) -> (Vec<(CaseCfg, 
     let salt0 = 900;
     // krillc-made entries for names that are not normalised: the weak salt uses NFKC(name), the key is
     // the name as given
-    extra_users.push(UserDef { name: "Ａda".into(), role: "readonly".into(), hpw: "pw-wide-ada".into(), hname: "Ada".into(), salt: salt0 });
-    extra_users.push(UserDef { name: "Ada".into(), role: "admin".into(), hpw: "pw-ada".into(), hname: "Ada".into(), salt: salt0 + 1 });
+    extra_users.push(UserDef { name: "Ａda".into(), role: "readonly".into(), hpw: "pw-wide-ada".into(), hname: "Ada".into(), salt: salt0, ..Default::default() });
+    extra_users.push(UserDef { name: "Ada".into(), role: "admin".into(), hpw: "pw-ada".into(), hname: "Ada".into(), salt: salt0 + 1, ..Default::default() });
     // an entry whose name has white space around it, hashed by a client that trims
-    extra_users.push(UserDef { name: " carol".into(), role: "readonly".into(), hpw: "pw-space-carol".into(), hname: "carol".into(), salt: salt0 + 2 });
-    extra_users.push(UserDef { name: "carol".into(), role: "admin".into(), hpw: "pw-carol".into(), hname: "carol".into(), salt: salt0 + 3 });
+    extra_users.push(UserDef { name: " carol".into(), role: "readonly".into(), hpw: "pw-space-carol".into(), hname: "carol".into(), salt: salt0 + 2, ..Default::default() });
+    extra_users.push(UserDef { name: "carol".into(), role: "admin".into(), hpw: "pw-carol".into(), hname: "carol".into(), salt: salt0 + 3, ..Default::default() });
     // a wide name without a normalised twin, and a name with white space hashed as krillc does
-    extra_users.push(UserDef { name: "Ｂob".into(), role: "readonly".into(), hpw: "pw-wide-bob".into(), hname: "Bob".into(), salt: salt0 + 4 });
-    extra_users.push(UserDef { name: "dave ".into(), role: "readonly".into(), hpw: "pw-dave".into(), hname: "dave ".into(), salt: salt0 + 5 });
-    extra_users.push(UserDef { name: "Erin".into(), role: "readonly".into(), hpw: "pw-Erin ﬁ".into(), hname: "Erin".into(), salt: salt0 + 6 });
-    extra_users.push(UserDef { name: "Fay".into(), role: "readonly".into(), hpw: "pw-fay fi".into(), hname: "Fay".into(), salt: salt0 + 7 });
+    extra_users.push(UserDef { name: "Ｂob".into(), role: "readonly".into(), hpw: "pw-wide-bob".into(), hname: "Bob".into(), salt: salt0 + 4, ..Default::default() });
+    extra_users.push(UserDef { name: "dave ".into(), role: "readonly".into(), hpw: "pw-dave".into(), hname: "dave ".into(), salt: salt0 + 5, ..Default::default() });
+    extra_users.push(UserDef { name: "Erin".into(), role: "readonly".into(), hpw: "pw-Erin ﬁ".into(), hname: "Erin".into(), salt: salt0 + 6, ..Default::default() });
+    extra_users.push(UserDef { name: "Fay".into(), role: "readonly".into(), hpw: "pw-fay fi".into(), hname: "Fay".into(), salt: salt0 + 7, ..Default::default() });
+
+    // users whose configured `password_hash` is not the text their password hashes to (C20: every user
+    // configuration): the right hash mangled into a string that is no hash at all, and entries that hold
+    // the (well-formed) hash of somebody else's password
+    let hu = |name: &str, role: &str, salt: u64, stored: Option<&str>| UserDef {
+        name: name.into(),
+        role: role.into(),
+        hpw: format!("pw-{name}"),
+        hname: name.into(),
+        salt,
+        hsalt: None,
+        stored: stored.map(|s| s.to_string()),
+    };
+    let mut hash_users: Vec<UserDef> = vec![
+        hu("gina", "admin", 950, None),
+        hu("lock-bang", "admin", 951, Some("bang")),
+        hu("lock-empty", "admin", 952, Some("empty")),
+        hu("h-trunc", "admin", 953, Some("trunc")),
+        hu("h-plus1", "readonly", 954, Some("plus1")),
+        hu("h-upper", "admin", 955, Some("upper")),
+        hu("h-nonhex", "readonly", 956, Some("nonhex64")),
+    ];
+    // gina's hash under an own salt, and a verbatim copy of gina's hash and salt
+    hash_users.push(UserDef { name: "h-other".into(), role: "admin".into(), hpw: "pw-gina".into(), hname: "gina".into(), salt: 957, hsalt: Some(950), stored: None });
+    hash_users.push(UserDef { name: "h-copy".into(), role: "admin".into(), hpw: "pw-gina".into(), hname: "gina".into(), salt: 950, hsalt: None, stored: None });
 
     // ---- instance 0: testbed on, peer unmapped, TCP too
     let mut cfg0 = CaseCfg { admin_only: false, admin: admin.clone(), testbed: true, key: 1, roles: roles.clone(), users: users.clone(), unix: Vec::new() };
     cfg0.users.extend(extra_users.iter().cloned());
+    cfg0.users.extend(hash_users.iter().cloned());
     let sub = |cfg: &CaseCfg, names: &[&str]| -> CaseCfg {
         let mut c = cfg.clone();
         c.roles.retain(|r| names.contains(&r.name.as_str()));
@@ -1513,6 +1734,18 @@ fn gen_plans(seed: u64, tier: &str, rows: &[Row], peer: &str) -> (Vec<(CaseCfg, 
     ] {
         let ops = all_rows_ops(rows, tr, &auth, &["ca1", "ghost"], false, false);
         plans.push(Plan { inst: 0, id: format!("s{seed}-c13-{tag}"), cfg: sub(&cfg0, &[]), ops });
+    }
+
+    // near misses of genuine credentials ("wrong credentials" one slip away from right ones): the
+    // neighbourhood of the admin token (the legacy arm of the chain here) and of a session token of the
+    // admin role, on the sample rows over both transports; one member per class on every row
+    {
+        let ops = near_ops(rows, "adm", Some(admin.len()), &["tcp", "unix"], Some("tcp"), thorough);
+        plans.push(Plan { inst: 0, id: format!("s{seed}-c13-near-admin-token"), cfg: sub(&cfg0, &[]), ops });
+        let u = users.iter().find(|u| u.role == "admin").unwrap();
+        let mut ops = vec![login_op(rows, u, "T1", "tcp")];
+        ops.extend(near_ops(rows, "T1", None, if thorough { &["tcp", "unix"] } else { &["tcp"] }, Some("tcp"), thorough));
+        plans.push(Plan { inst: 0, id: format!("s{seed}-c13-near-session-token"), cfg: sub(&cfg0, &["admin"]), ops });
     }
 
     // ---- instance 1: testbed off, peer mapped to a role
@@ -1560,6 +1793,12 @@ fn gen_plans(seed: u64, tier: &str, rows: &[Row], peer: &str) -> (Vec<(CaseCfg, 
     ] {
         let ops = all_rows_ops(rows, "unix", &auth, &["ca1"], true, false);
         plans.push(Plan { inst: 2, id: format!("s{seed}-c13-admintoken-{tag}"), cfg: cfg2.clone(), ops });
+    }
+    {
+        // the neighbourhood of the admin token where the admin-token provider is the primary one: over TCP
+        // (nobody) and over the socket of the mapped peer (falls through to the peer's read-only role)
+        let ops = near_ops(rows, "adm", Some(admin.len()), &["tcp", "unix"], Some(if rng.chance(1, 2) { "tcp" } else { "unix" }), thorough);
+        plans.push(Plan { inst: 2, id: format!("s{seed}-c13-admintoken-near"), cfg: cfg2.clone(), ops });
     }
 
     // ---- C20 on instance 0 (unmapped peer, TCP) and instance 1 (mapped peer)
@@ -1687,6 +1926,85 @@ fn gen_plans(seed: u64, tier: &str, rows: &[Row], peer: &str) -> (Vec<(CaseCfg, 
         ops.push(format!("req {} POST segs=auth/login tr=tcp auth=bearer:txt:{} tok=T901", login.idx, hexs(&admin)));
         plans.push(Plan { inst: 0, id: format!("s{seed}-c20-logins"), cfg: c, ops });
     }
+    // logins of users whose stored `password_hash` is not the text of their password's hash: the password
+    // whose hash was mangled, another user's password, the empty one, the stored string itself, a very
+    // long one. Nobody may get in (the control user `gina` does); a token that is handed out is used.
+    {
+        let mut c = sub(&cfg0, &["readonly", "admin"]);
+        c.users.extend(hash_users.iter().cloned());
+        let login = rows.iter().find(|r| r.pattern == "/auth/login" && r.method == "POST").unwrap();
+        let idrow = rows.iter().find(|r| r.handler == "cas::id_index" && r.method == "POST").unwrap();
+        let long_pw = "L0ng-".repeat(800);
+        let mut attempts: Vec<(String, String)> = vec![("gina".into(), "pw-gina".into()), ("gina".into(), "pw-lock-bang".into())];
+        for u in hash_users.iter().filter(|u| u.name != "gina") {
+            attempts.push((u.name.clone(), u.hpw.clone()));
+            attempts.push((u.name.clone(), String::new()));
+        }
+        for (n, p) in [
+            ("lock-bang", "!"),
+            ("lock-bang", "pw-gina"),
+            ("lock-bang", long_pw.as_str()),
+            ("h-trunc", "pw-gina"),
+            ("h-trunc", long_pw.as_str()),
+            ("h-upper", "PW-H-UPPER"),
+            ("h-nonhex", "zzz"),
+            ("h-other", "pw-h-other"),
+            ("h-copy", long_pw.as_str()),
+        ] {
+            attempts.push((n.to_string(), p.to_string()));
+        }
+        let mut ops: Vec<String> = Vec::new();
+        for (k, (n, p)) in attempts.iter().enumerate() {
+            let tr = if k % 2 == 0 { "tcp" } else { "unix" };
+            ops.push(format!("req {} POST segs=auth/login tr={tr} auth=basic:{}:{} tok=T{}", login.idx, hexs(n), hexs(p), k + 1));
+            ops.push(probe_op(rows, tr, &format!("bearer:T{}", k + 1)));
+            ops.push(format!("req {} POST segs=api/v1/cas/ca2/id tr={tr} auth=bearer:T{}", idrow.idx, k + 1));
+        }
+        plans.push(Plan { inst: 0, id: format!("s{seed}-c20-stored-hash"), cfg: c, ops });
+    }
+    // the neighbourhood of genuine credentials – the admin token and an issued session token – on
+    // `/api/v1/authorized` and two state-changing routes, on both transports, in both provider
+    // configurations (here: config-file provider primary, the admin token is the legacy arm)
+    let admin_hex = hexs(&admin);
+    let c20_near = |rows: &[Row], bases: &[(&str, Option<usize>)], trs: &[&str], with_login: bool| -> Vec<String> {
+        let find = |pat: &str, m: &str| rows.iter().find(|r| r.pattern == pat && r.method == m).expect("row");
+        let authorized = find("/api/v1/authorized", "GET");
+        let create = find("/api/v1/cas", "POST");
+        let idrow = find("/api/v1/cas/{handle}/id", "POST");
+        let login = find("/auth/login", "POST");
+        let mut ops = Vec::new();
+        for tr in trs {
+            for (base, len) in bases {
+                // the credential itself first
+                let genuine = if *base == "adm" { format!("bearer:txt:{admin_hex}") } else { format!("bearer:{base}") };
+                ops.push(row_op(authorized, "ca1", tr, &genuine));
+                for v in near_variants(*len) {
+                    let auth = format!("near:{base}:{v}");
+                    ops.push(row_op(authorized, "ca1", tr, &auth));
+                    ops.push(row_op(idrow, "ca2", tr, &auth));
+                    ops.push(row_op(create, "ca1", tr, &auth));
+                    if with_login && *base == "adm" {
+                        ops.push(format!("req {} POST segs=auth/login tr={tr} auth={auth} tok=T800", login.idx));
+                    }
+                }
+            }
+        }
+        ops
+    };
+    {
+        let u = users.iter().find(|u| u.role == "admin").unwrap();
+        let mut ops = vec![login_op(rows, u, "T1", "tcp")];
+        ops.extend(c20_near(rows, &[("adm", Some(admin.len())), ("T1", None)], &["tcp", "unix"], true));
+        plans.push(Plan { inst: 0, id: format!("s{seed}-c20-near-configfile"), cfg: sub(&cfg0, &["admin"]), ops });
+        // mapped peer: a near miss falls through to the peer's role
+        let u = users.iter().find(|u| u.role == "admin").unwrap();
+        let mut ops = vec![login_op(rows, u, "T1", "unix")];
+        ops.extend(c20_near(rows, &[("adm", Some(admin.len())), ("T1", None)], &["unix"], false));
+        plans.push(Plan { inst: 1, id: format!("s{seed}-c20-near-mapped"), cfg: cfg1.clone(), ops });
+        // admin-token provider primary: `POST /auth/login` with a bearer token answers with the admin token
+        let ops = c20_near(rows, &[("adm", Some(admin.len()))], &["tcp", "unix"], true);
+        plans.push(Plan { inst: 2, id: format!("s{seed}-c20-near-admintoken"), cfg: cfg2.clone(), ops });
+    }
     // token mutations
     // (instance, role of the token's user, CA of the probe route that role may read)
     let mut variants: Vec<(usize, String, &str)> = vec![(0, "readonly".into(), "ca1"), (1, other_role.clone(), "ca3")];
@@ -1782,7 +2100,7 @@ fn gen_plans(seed: u64, tier: &str, rows: &[Row], peer: &str) -> (Vec<(CaseCfg, 
     }
     // ---- instance 3 (C20, only as root): several system accounts mapped, the connecting thread's effective
     // uid and gid varied; the identity must be the user of the effective UID, whatever the gid
-    let mut insts = vec![(cfg0, true), (cfg1, false), (cfg2, false)];
+    let mut insts = vec![(cfg0, true), (cfg1, false), (cfg2, true)];
     if nix::unistd::geteuid().is_root() {
         let name_of = |u: u32| nix::unistd::User::from_uid(nix::unistd::Uid::from_raw(u)).ok().flatten().map(|x| x.name);
         let wanted: [(u32, Option<&str>); 5] = [(0, Some("readonly")), (1, Some("admin")), (2, Some("override")), (3, Some("scoped")), (65534, None)];
